@@ -394,11 +394,12 @@ func oracle(c *Case) (facts, error) {
 						}
 						return e
 					})
+					timedOut := ctx.Err() == context.DeadlineExceeded // before cancel: afterwards Err is always set
 					cancel()
 					if err == nil {
 						return fmt.Errorf("query %+q via grpc on an unknown column returned rows", badText)
 					}
-					if ctx.Err() != nil || strings.Contains(err.Error(), "DeadlineExceeded") {
+					if timedOut || strings.Contains(err.Error(), "DeadlineExceeded") {
 						return fmt.Errorf("rejected query %d through the grpc database handle: no answer within 20 s (the server, alive=%v, no longer answers after failing queries): %v", i, srv.Alive(), err)
 					}
 					if fix.IsPanic(err) {
